@@ -207,6 +207,11 @@ def all_single_ops(impl, ti, *, labels, full=True):
         for sp in H.paths_of(impl.trees[other])[:2]:
             for deep in (None, True):
                 ops.append({"op": "w.addnode", "t": ti, "p": p, "st": other, "sp": sp, "before": None, "deep": deep})
+            # add(node, data_id=): the source's own id / another id / falsy ids, shallow and deep
+            src_id = impl.node(other, sp).data_id
+            for did in ([src_id] if not (isinstance(src_id, int) and abs(src_id) >= 10**6) else []) + [0, "", 1001]:
+                for deep in (None, True):
+                    ops.append({"op": "w.addnode", "t": ti, "p": p, "st": other, "sp": sp, "before": None, "deep": deep, "did": did})
         for b in bs[:5] + [-1, -2, n] + bs[8:9]:
             ops.append({"op": "w.addtree", "t": ti, "p": p, "st": other, "before": b, "deep": None})
         for sp in [[]] + H.paths_of(impl.trees[other])[:1]:
